@@ -19,4 +19,47 @@ finally:
     os.unlink(path)
 if not rr.get('ok'):
     print('biftotal could not run: %s' % rr.get('error')); sys.exit(2)
-print(rr['stdout'], end='')
+out = rr['stdout']
+# ---- named forms: the parameter names of every built-in are read from named.rs (the NAME_* constants its bif_* function asks for); every
+# subset of 1..3 of them is bound to every tuple of a 10-value grid (the named wrappers are separate code from the positional ones)
+nt = open(os.path.join(REPO, 'feel-evaluator/src/bifs/named.rs'), encoding='utf-8').read()
+consts = {}
+for m in re.finditer(r'static ref (NAME_\w+): Name = Name::(?:from\("([^"]*)"\)|new\(&\[([^\]]*)\]\));', nt):
+    consts[m.group(1)] = m.group(2) if m.group(2) is not None else ' '.join(re.findall(r'"([^"]*)"', m.group(3)))
+variant = dict((v, n) for (n, v) in re.findall(r'"([a-z ]+)" => Ok\(Self::(\w+)\)', t))
+fn_of = dict(re.findall(r'Bif::(\w+) => (bif_\w+)\(parameters\)', nt))
+SMALL = ['null', '0', '-1', '18446744073709551616', '"a"', '[]', '[null]', '[1,2]', '-9223372036854775808', '9223372036854775807']
+import itertools
+exprs = []
+for (var, fn) in sorted(fn_of.items()):
+    if var not in variant:
+        continue
+    mb = re.search(r'fn %s\(\w+: &NamedParameters\) -> Value \{(.*?)\n\}\n' % fn, nt, re.S)
+    if not mb:
+        continue
+    pnames = []
+    for c in re.findall(r'&(NAME_\w+)', mb.group(1)):
+        if c in consts and consts[c] not in pnames:
+            pnames.append(consts[c])
+    for k in (1, 2, 3):
+        for combo in itertools.combinations(pnames[:5], k):
+            for vals in itertools.product(SMALL, repeat=k):
+                exprs.append('%s(%s)' % (variant[var], ', '.join('%s: %s' % (n, v) for n, v in zip(combo, vals))))
+if len(exprs) < 5000:
+    print('biftotal could not run: only %d named calls generated from named.rs' % len(exprs)); sys.exit(2)
+with tempfile.NamedTemporaryFile('w', suffix='.txt', delete=False, dir='/var/tmp', encoding='utf-8') as fh:
+    fh.write('\n'.join(exprs) + '\n'); path = fh.name
+try:
+    r2 = replaydrv.run('feeltotal', [path], timeout=2400)
+finally:
+    os.unlink(path)
+if not r2.get('ok'):
+    print('biftotal could not run (named forms): %s' % r2.get('error')); sys.exit(2)
+m1 = re.search(r'cases=(\d+) failures=(\d+)', out)
+m2 = re.search(r'cases=(\d+) failures=(\d+)', r2['stdout'])
+if not (m1 and m2):
+    print('biftotal could not run: no summary'); sys.exit(2)
+print('biftotal cases=%d failures=%d' % (int(m1.group(1)) + int(m2.group(1)), int(m1.group(2)) + int(m2.group(2))))
+for l in (out + r2['stdout']).splitlines():
+    if l.startswith('FAIL '):
+        print(l)
